@@ -1,3 +1,3 @@
 SPECIFICATION Spec
-CONSTANT MaxLen = 6
+CONSTANT MaxLen = 5
 CONSTANT NSample = 3000
